@@ -1,9 +1,34 @@
-(** Property C09 — theorems only; proofs live in Proofs/. *)
-From Coq Require Import String List.
-From Zog Require Import Model.Val Model.Engine Spec.Sem Proofs.Refine.
+(** Property C09 — results do not depend on map iteration or key insertion order. *)
+From Coq Require Import String List ZArith Bool Permutation.
+From Zog Require Import Model.Val Model.Engine Spec.Sem Spec.Satisfies Proofs.Refine Proofs.Indep.
+Import ListNotations.
 
-(** The executable engine (flags, shared child context, mutable path stack, one issue log) computes
-    exactly the context-free semantics, for every schema, mode, input and destination. *)
+(** A struct schema holds its fields in visit order.  For every permutation of that order: the
+    destination is the same, the struct-level tests see the same value, and the issues and
+    callback invocations are the same up to their order — hence every key of the issue map holds
+    the same issues; only which one is recorded first may differ.
+    PARTIAL: for schemas without PostTransforms below the struct.  With PostTransforms the full
+    statement is false of the code (they are gated on the execution-wide error state): recorded
+    finding C09/pt-gating. *)
+Theorem C09_struct_order_independent_partial : forall m fs fs' tests dat d e,
+  Permutation fs fs' -> fields_pt_free fs = true -> NoDup (map fst fs) ->
+  Permutation (fst (sem m (SStruct fs tests []) dat d e)) (fst (sem m (SStruct fs' tests []) dat d e))
+  /\ snd (sem m (SStruct fs tests []) dat d e) = snd (sem m (SStruct fs' tests []) dat d e).
+Proof. exact struct_order_independent. Qed.
+Print Assumptions C09_struct_order_independent_partial.
+
+Theorem C09_fields_order_independent_partial : forall m pv fs fs' dfs e,
+  Permutation fs fs' -> fields_pt_free fs = true -> NoDup (map fst fs) ->
+  Permutation (fst (sem_fields (sem m) m pv fs dfs e)) (fst (sem_fields (sem m) m pv fs' dfs e))
+  /\ snd (sem_fields (sem m) m pv fs dfs e) = snd (sem_fields (sem m) m pv fs' dfs e).
+Proof. exact fields_order_independent. Qed.
+Print Assumptions C09_fields_order_independent_partial.
+
+(** whether an issue already exists is irrelevant to a schema without PostTransforms *)
+Theorem C09_error_state_irrelevant_without_transforms : forall s, pt_free s = true -> forall m dat d e0 e1, sem m s dat d e0 = sem m s dat d e1.
+Proof. exact pt_free_e0_free. Qed.
+Print Assumptions C09_error_state_irrelevant_without_transforms.
+
 Theorem C09_engine_computes_semantics : forall m s dat d, run m s dat d = sem_run m s dat d.
 Proof. exact run_is_sem_run. Qed.
 Print Assumptions C09_engine_computes_semantics.
